@@ -162,9 +162,21 @@ fn debug_kind<A: ArenaX>(a: &A) -> String {
   "?".to_string()
 }
 
-fn file_rle(p: &std::path::Path) -> (u64, Value) {
+// The in-buffer header is `repr(C, align(8))` with 20 bytes of fields: its last 4 bytes are padding, written with whatever
+// the compiler left there (indeterminate, and different after any refactoring of the constructors). They carry no state and
+// are logged as zero so that byte comparisons (across backends, cleared vs fresh, before vs after reopen) never see them.
+const HEADER_SIZE: usize = 24;
+const HEADER_FIELDS: usize = 20;
+
+fn file_rle(p: &std::path::Path, reserved: usize) -> (u64, Value) {
   match std::fs::read(p) {
-    Ok(b) => (b.len() as u64, rle(&b)),
+    Ok(mut b) => {
+      let hoff = reserved.div_ceil(8) * 8 + 8;
+      for i in (hoff + HEADER_FIELDS)..(hoff + HEADER_SIZE).min(b.len()) {
+        b[i] = 0;
+      }
+      (b.len() as u64, rle(&b))
+    }
     Err(_) => (0, json!([])),
   }
 }
@@ -228,7 +240,17 @@ impl<A: ArenaX> Inst<A> {
   }
 
   fn mem(&self) -> Value {
-    rle(self.a().memory())
+    let a = self.a();
+    if a.unify() {
+      let mut m = a.memory().to_vec();
+      let doff = a.data_offset();
+      for i in (doff - (HEADER_SIZE - HEADER_FIELDS))..doff.min(m.len()) {
+        m[i] = 0;
+      }
+      rle(&m)
+    } else {
+      rle(a.memory())
+    }
   }
 
   fn ok_handle(&mut self, mut h: Box<dyn AnyHandle>, nofill: bool) -> (Value, Value) {
@@ -453,7 +475,8 @@ impl<A: ArenaX> Inst<A> {
         unsafe { drop(Box::from_raw(self.arena)) };
         self.closed = true;
         let _ = take_api();
-        let (len0, file0) = file_rle(&path);
+        let reserved_of_file = self.cfg["reserved"].as_u64().unwrap_or(0) as usize;
+        let (len0, file0) = file_rle(&path, reserved_of_file);
         let cfg = self.cfg.clone();
         let mut o = options_of(&cfg);
         // capacity on reopen: absent (0), or an explicit value
@@ -475,7 +498,7 @@ impl<A: ArenaX> Inst<A> {
             v => panic!("bad variant {v}"),
           }
         };
-        let (len1, file1) = file_rle(&path);
+        let (len1, file1) = file_rle(&path, reserved_of_file);
         match r {
           Ok(arena) => {
             self.arena = Box::into_raw(Box::new(arena));
